@@ -33,7 +33,24 @@ type runResp struct {
 	NodeErr  string   `json:"node_err,omitempty"`
 }
 
-func init() { vh.RegisterChild("c02run", childRun) }
+func init() {
+	vh.RegisterChild("c02run", childRun)
+	// debugging aid: `vh __child c02nodes < file.php` prints the parser's node tree
+	vh.RegisterChild("c02nodes", func(args []string) int {
+		b, _ := io.ReadAll(os.Stdin)
+		text, problems, err := DumpNodes(vh.NewEnv().Parser, string(b), "")
+		os.Stdout.WriteString(text + "\n")
+		for _, p := range problems {
+			os.Stdout.WriteString("problem: " + p + "\n")
+		}
+		if err != "" {
+			os.Stdout.WriteString("error: " + err + "\n")
+		}
+		r := runSourceFresh(string(b))
+		os.Stdout.WriteString(r.Status + "|" + r.Out + "|" + r.Detail + "\n")
+		return 0
+	})
+}
 
 func runSourceFresh(src string) implRes {
 	env := vh.NewEnv()
